@@ -47,6 +47,10 @@ fixed = [
       what='fixed: property=C20 be72045 D models: the world SerialAccess.enforce() adds after _complete_frames had no frame -- get_data() omitted it from Worlds (Fm |- b: Worlds [0,1], Access [(0,1),(1,2)]) and listed it once a sentence had been evaluated there'),
  dict(property='C08', status='fixed', commit='be72045', key='C08.R3/D/finish/access pairs [(0, 1)], frames at worlds [0, 1]',
       what='fixed: property=C08 be72045 same defect: no self-identity / defaults at the serial world, so []m=m was false at the world that sees it'),
+ dict(property='C04', status='fixed', commit='506067a', key='C04.R7/serial_rule/worlds without successor [1, 2], worlds with sentence nodes [0, 1, 2], last history entry: serial-same-branch, world limit exceeded: False',
+      what='fixed: property=C04 506067a access.Serial refused to apply whenever it was the last rule applied to the branch: with two unserial worlds one was never served; D reported Ma, MKLbNMb |- c invalid (valid without the first premise)'),
+ dict(property='C02', status='fixed', commit='506067a', key='C02.R6/serial_rule/worlds without successor [1, 2], worlds with sentence nodes [0, 1, 2], last history entry: serial-same-branch, world limit exceeded: False',
+      what='fixed: property=C02 506067a same defect: the open branch was unsaturated and its model no countermodel'),
 ]
 def triage(prop, f):
     k = f['key']; d = f.get('detail', {})
